@@ -1,5 +1,6 @@
 import Proofs.FillPackets
 import Proofs.Tie.Encode
+import Proofs.Tie.Enc
 import Proofs.RenderInv
 import Mq.Stream
 /-!
